@@ -358,6 +358,11 @@ func (r *Run) checkExtAuth() {
 							if out.Backend != "" && !r.backendOfIngressPath(ing, svc, port, out.Backend) {
 								continue // routed elsewhere: a routing matter (C03), not an authentication one
 							}
+							if exp.accept[0].host == "" && len(bestRules(st.rules, strings.ToLower(strings.Split(req.Host, ":")[0]), req.Path)) > 0 {
+								// the request fell to the default host (https for a host without TLS) and is resolved again
+								// inside the backend, where a rule of its real host matches: that rule's owner decides
+								continue
+							}
 							r.violate(&Violation{Property: "C18", Oracle: "fail-closed", Class: "protected-path-served-unauthenticated",
 								Witness: fmt.Sprintf("%s declares external authentication (auth-url=%q oauth=%q) but %s is forwarded without it: %s", ingKey, url, oauth, req, out)})
 							return
